@@ -132,3 +132,139 @@ def c18(tier, seed, replay):
                                          "another B-tree's page is only caught through the content comparison",
                                          "index lookups are judged for soundness only (completeness is C15's subject)"])
     return 1 if nv else 0
+
+
+# ------------------------------------------------------------------------------------------------
+# C31: vector search
+# ------------------------------------------------------------------------------------------------
+def vector_scenarios(tier, seed):
+    rng = random.Random(seed * 104729 + 31)
+    n_sc = 8 if tier == "quick" else 60
+    out = []
+    for k in range(n_sc):
+        m = [2, 4, 16, 2, 3, 16, 4, 2][k % 8]
+        dim = rng.choice([2, 3])
+        big = (k % 4 == 3)                      # a scenario that grows far beyond 2M + 1 vectors (B-tree splits in the stores)
+        n_nodes = 900 if big else rng.choice([12, 40, 80])
+        R = 6
+        rv = lambda: [rng.randint(-R, R) for _ in range(dim)]
+        steps = [{"op": "nodes", "n": n_nodes}]
+        have = []
+        def search():
+            steps.append({"op": "search", "q": rv(), "k": rng.choice([1, 2, 3, 5, 10, 50])})
+        # phase 1: at most 2M + 1 vectors, where the result must be exact
+        small = list(range(2 * m + 1))
+        rng.shuffle(small)
+        cut = rng.randint(1, len(small))
+        for chunk in (small[:cut], small[cut:]):
+            if chunk:
+                steps.append({"op": "setvec", "commit": True, "items": [[n, rv()] for n in chunk if n < n_nodes]})
+                have += [n for n in chunk if n < n_nodes]
+                search(); search()
+        if rng.random() < 0.7:
+            steps.append({"op": "reopen"}); steps.append(dict(steps[-2])); search()
+        for _ in range(rng.randint(3, 8)):
+            kind = rng.choices(["reinsert", "dup", "delete", "dropped", "compact", "reopen", "search"], [3, 2, 2, 2, 1, 2, 4])[0]
+            if kind == "reinsert" and have:
+                steps.append({"op": "setvec", "commit": True, "items": [[rng.choice(have), rv()]]})
+            elif kind == "dup" and have:
+                v = rv()
+                steps.append({"op": "setvec", "commit": True, "items": [[n, v] for n in rng.sample(have, min(2, len(have)))]})
+            elif kind == "delete" and have:
+                steps.append({"op": "delnode", "ids": [rng.choice(have)]})
+            elif kind == "dropped":
+                steps.append({"op": "setvec", "commit": False, "items": [[rng.randrange(n_nodes), rv()]]})
+            elif kind in ("compact", "reopen"):
+                prev = [s for s in steps if s["op"] == "search"][-1]
+                steps.append({"op": kind})
+                steps.append(dict(prev))
+            search()
+        if big:
+            # phase 2: grow; judged for soundness, order, distances and stability across reopen
+            rest = [n for n in range(n_nodes) if n not in have]
+            rng.shuffle(rest)
+            for i in range(0, len(rest), 150):
+                steps.append({"op": "setvec", "commit": True, "items": [[n, rv()] for n in rest[i:i + 150]]})
+                search(); search()
+                q = dict(steps[-1])
+                steps.append({"op": rng.choice(["reopen", "compact", "reopen"])})
+                steps.append(q)
+        out.append({"id": "knn/%d" % k, "m": m, "steps": steps})
+    return out
+
+
+@reg("C31")
+def c31(tier, seed, replay):
+    t0 = time.time()
+    vlib.build_harness()
+    cd = cache_dir("vectors", tier, seed)
+    os.makedirs(cd, exist_ok=True)
+    scenarios = [json.load(open(replay))["scenario"]] if replay else vector_scenarios(tier, seed)
+    ip, tp = os.path.join(cd, "scenarios.ndjson"), os.path.join(cd, "trace.ndjson")
+    res_p = os.path.join(cd, "result.json")
+    if os.path.exists(res_p) and not replay:
+        saved = json.load(open(res_p))
+    else:
+        vlib.write_ndjson(ip, scenarios)
+        stats = vlib.nvx(["vectors", "--in", ip, "--out", tp, "--scratch", os.path.join(cd, "scratch")], timeout=7200)
+        shutil.rmtree(os.path.join(cd, "scratch"), ignore_errors=True)
+        findings, info = vlib.tlc_trace("KnnTrace", tp, "knn-" + tier, timeout=7200)
+        ids, cur = {}, None
+        lines = open(tp).read().splitlines()
+        exact_judged = 0
+        for i, l in enumerate(lines, 1):
+            if '"ev":"vreset"' in l:
+                cur = json.loads(l).get("id")
+            ids[i] = cur
+        for f in findings:
+            f["id"] = ids.get(f.get("at"))
+        selftest = {"ran": False}
+        if not replay:
+            dirty = {f["at"] for f in findings}
+            done = []
+            for mode in ("distance", "order", "stale"):
+                out, hit = [], False
+                for i, l in enumerate(lines, 1):
+                    e = json.loads(l)
+                    if not hit and i not in dirty and e.get("op") == "search" and len(e["info"]["hits"]) >= 2 \
+                            and e["info"]["hits"][0][1] != e["info"]["hits"][-1][1]:
+                        h = e["info"]["hits"]
+                        if mode == "distance":
+                            h[0][1] = {"k": "fin", "n": h[0][1]["n"] * 2 + 3, "e": h[0][1]["e"]}
+                        elif mode == "order":
+                            h[0], h[-1] = h[-1], h[0]
+                        else:
+                            out.append(json.dumps(e))
+                            e = json.loads(l)
+                            e["info"]["hits"] = e["info"]["hits"][1:]
+                        hit = True
+                    out.append(json.dumps(e))
+                    if hit:
+                        break
+                sp = os.path.join(cd, "selftest.ndjson")
+                open(sp, "w").write("\n".join(out) + "\n")
+                sf, _ = vlib.tlc_trace("KnnTrace", sp, "knn-selftest", timeout=1800)
+                want = {"distance": "wrong-distance", "order": "not-sorted", "stale": "result-changed-without-a-write"}[mode]
+                if not any(f["kind"] == want for f in sf):
+                    raise ToolError("binding self-test failed: corrupted %s accepted" % mode)
+                done.append(want)
+                os.remove(sp)
+            selftest = {"ran": True, "rejected": done}
+        saved = {"stats": stats, "findings": findings, "info": info, "selftest": selftest}
+        json.dump(saved, open(res_p, "w"))
+    by_id = {s["id"]: s for s in scenarios}
+    nv, nk = generic_verdict("C31", saved["findings"], lambda f: {"property": "C31", "finding": f, "scenario": by_id.get(f.get("id"))})
+    st = saved["stats"]
+    cov = {"states": saved["info"].get("distinct", 0), "transitions": saved["info"].get("states_generated", 0),
+           "traces_validated_against_impl": len(scenarios), "evaluations": st.get("searches", 0),
+           "distinct_nontrivial": sum(1 for s in scenarios for x in s["steps"] if x["op"] in ("reopen", "compact")),
+           "rule": "vector sets with integer coordinates in -6..6 (ties, duplicates, re-insertions, deleted nodes, vectors written by dropped "
+                   "transactions), link count M in {2,3,4,16}; searches with k in {1,2,3,5,10,50}; every search is judged for size, distinctness, "
+                   "liveness, exact distance, order, exactness while the index holds <= 2M+1 vectors, and equality with the same search before a "
+                   "reopen / compaction; non-trivial = reopen / compaction steps followed by a repeated search",
+           "harness_stats": st, "binding_selftest": saved["selftest"], "known_findings_seen": nk,
+           "samples": [s["steps"][:5] for s in scenarios[:2]]}
+    vlib.write_evidence("C31", tier, seed, "model_checking", cov, time.time() - t0, nv,
+                        ASSUME_COMMON + ["coordinates are small integers so that squared distances are exact; float rounding of sqrt is allowed 2^-20 relative",
+                                         "beyond 2M+1 vectors only soundness (not recall) is judged, as the property states"])
+    return 1 if nv else 0
